@@ -9,17 +9,21 @@ Definition k1 : key := [107; 49].   (* "k1" *)
 Definition k5 : key := [107; 53].   (* "k5" *)
 
 Lemma C16_read_latest_proof : forall P ops,
-  closed (run P ops) = false ->
+  presume_ok ops = true -> closed (run P ops) = false ->
   let s := run P ops in
   let truth := rmap (rrun ops) in
-  (forall k, fst (get s k) = lookup k truth) /\
-  (forall ks k, In k ks -> lookup k (fst (fst (bget s ks))) = lookup k truth) /\
+  (forall k, eqv (cneset s) k (fst (get s k)) (lookup k truth)) /\
+  (forall ks k, In k ks -> eqv (cneset s) k (lookup k (fst (fst (bget s ks)))) (lookup k truth)) /\
+  (forall k, ~ In k (cneset s) ->
+     fst (get s k) = lookup k truth /\ forall ks, In k ks -> lookup k (fst (fst (bget s ks))) = lookup k truth) /\
   (forall k, lookup k (rmap (rrun (ops ++ [ODel k]))) = Some []) /\
   truth = writes_of (wl (wrun ops)).
 Proof.
-  intros P ops Hc s truth. pose proof (rinv_run P ops Hc) as H. repeat split.
+  intros P ops Hp Hc s truth. pose proof (rinv_run P ops Hp Hc) as H. repeat split.
   - intros k. apply get_view; exact H.
   - intros ks k Hin. apply bget_view; assumption.
+  - destruct (get_view s (rrun ops) k H) as [E|(Hin & _)]; [exact E|contradiction].
+  - intros ks Hin. destruct (bget_view s (rrun ops) ks k H Hin) as [E|(Hin' & _)]; [exact E|contradiction].
   - intros k. unfold rrun. rewrite fold_left_app. cbn [fold_left rstep rmap]. apply lookup_insert_same.
   - apply rmap_is_writes_of_log.
 Qed.
@@ -46,16 +50,16 @@ Lemma C16_flush_error_fails_txn_proof : forall P ops,
      let s' := run_from P s ops' in
      closed s' = true /\ snd (commit_attempt P s' wo1 wo2) = false /\
      (inflight s' = true -> forall o, pending (complete s' o) = Some false)) /\
-  (forall wo1 wo2, snd (commit_attempt P s wo1 wo2) = true ->
+  (presume_ok ops = true -> forall wo1 wo2, snd (commit_attempt P s wo1 wo2) = true ->
      let s2 := fst (commit_attempt P s wo1 wo2) in
      closed s2 = false /\ mem s2 = [] /\ flushing s2 = None /\
-     forall k, lookup k (store s2) = lookup k (rmap (rrun ops))).
+     forall k, eqv (cneset s2) k (lookup k (store s2)) (lookup k (rmap (rrun ops)))).
 Proof.
   intros P ops s. split; [exact complete_error_closes|]. split.
   - intros Hc ops' wo1 wo2 s'.
     destruct (failed_txn_stays_failed P s ops' wo1 wo2 (shape_run P ops) Hc) as [A B].
     repeat split; try assumption. intros Hi o. apply complete_closed; assumption.
-  - intros wo1 wo2 Hok. apply commit_ok_all_stored; exact Hok.
+  - intros Hp wo1 wo2 Hok. apply commit_ok_all_stored; assumption.
 Qed.
 
 Lemma C16_resolve_covers_proof : forall P ops sp,
@@ -91,7 +95,7 @@ Qed.
 Lemma C16_crash_recoverable_proof : forall P ops,
   forallb op_keys_ok ops = true ->
   let s := run P ops in
-  (flushed_keys s <> [] -> primary s <> [] /\ In (primary s) (flushed_keys s)) /\
+  (locked_keys s <> [] -> primary s <> [] /\ In (primary s) (locked_keys s) /\ In (primary s) (flushed_keys s)) /\
   (forall ops', primary s <> [] -> primary (run_from P s ops') = primary s) /\
   (forall locks ks, (forall k, In k locks -> In k (flushed_keys s)) ->
      let c := crun (crash_state locks) ks in
@@ -99,8 +103,8 @@ Lemma C16_crash_recoverable_proof : forall P ops,
      (forall k, In k locks -> In k ks -> ~ In k (clocks c) /\ In k (crolled c)) /\
      (forall k, In k (clocks c) -> In k (flushed_keys s))).
 Proof.
-  intros P ops Hok s. destruct (pinv_run P ops Hok) as [H1 H2]. split; [|split].
-  - intros Hne. split; [apply H1; exact Hne|apply H2, H1, Hne].
+  intros P ops Hok s. destruct (pinv_run P ops Hok) as (H1 & H2 & _). split; [|split].
+  - intros Hne. split; [apply H1; exact Hne|]. split; [apply H2, H1, Hne|apply locked_sub_flushed, H2, H1, Hne].
   - intros ops' Hp. apply primary_stable; exact Hp.
   - intros locks ks Hsub. destruct (crash_resolvers locks ks) as (A & B & C & D).
     repeat split; try assumption; try (apply C; assumption). intros k Hk. apply Hsub, D, Hk.
@@ -115,9 +119,9 @@ Lemma C16_keepalive_and_latch_proof : forall P ops,
   (forall s0 k, inflight s0 = true -> closed (complete_exist s0 k) = true) /\
   tmrun (fst (step P s OEnd)) = false.
 Proof.
-  intros P ops Hok s. destruct (pinv_run P ops Hok) as [H1 H2]. pose proof (kinv_run P ops) as Hk. repeat split.
-  - apply H1, (ki_tm _ Hk), H.
-  - apply H2, H1, (ki_tm _ Hk), H.
+  intros P ops Hok s. destruct (pinv_run P ops Hok) as (H1 & H2 & _). pose proof (kinv_run P ops) as Hk. repeat split.
+  - apply (ki_tm _ Hk), H.
+  - apply locked_sub_flushed, H2, (ki_tm _ Hk), H.
   - apply complete_error_closes; assumption.
   - apply complete_error_closes; assumption.
   - intros s0 k Hi. unfold complete_exist. rewrite Hi. cbn [set_tm closed]. apply complete_error_closes; exact Hi.
@@ -127,6 +131,37 @@ Lemma C16_already_exist_value_proof : forall P ops o k v,
   snd (step P (run P ops) o) = RErrExist k v ->
   v = lookup k (buf_of (last_flog (run P ops))).
 Proof. intros P ops o k v. apply exist_value_step, kinv_run. Qed.
+
+Lemma flush_triggered_pne P s f m wo st' t : flush P s f m wo = (st', RFlush true 0 t) -> pne st' = [] /\ fpne st' = pne s.
+Proof.
+  unfold flush. set (s0 := set_cache s None).
+  destruct (negb (is_nil (stages s0))); [intros [= _ ?]; discriminate|].
+  destruct (negb f && negb (need_flush P s0 m)); [intros [= _ ?]; discriminate|].
+  destruct (flushing s0).
+  - unfold wait. destruct (match pending (complete s0 wo) with Some r => r | None => true end).
+    + intros [= <- _]. cbn. split; [reflexivity|]. unfold complete. destruct (inflight s0); reflexivity.
+    + unfold err_resp. destruct (perr (complete s0 wo)); [destruct (flushing (complete s0 wo)) as [[? ?]|]|]; intros Hx; inversion Hx.
+  - intros [= <- _]. cbn. split; reflexivity.
+Qed.
+
+Lemma C16_flush_ops_proof : forall P ops,
+  forallb op_keys_ok ops = true ->
+  let s := run P ops in
+  length (flogp s) = length (flog s) /\
+  (forall fb fp k v, In (k, v) fb -> In (k, mut_op (key_in k fp) v) (muts_of fb fp)) /\
+  (forall f m wo st' t, flush P s f m wo = (st', RFlush true 0 t) -> pne st' = [] /\ fpne st' = pne s) /\
+  (locked_keys s <> [] -> primary s <> [] /\ In (primary s) (locked_keys s)) /\
+  (forall k, In k (locked_keys s) -> In k (flushed_keys s)).
+Proof.
+  intros P ops Hok s. destruct (pinv_run P ops Hok) as (H1 & H2 & H3). repeat split.
+  - symmetry; exact H3.
+  - intros fb fp k v Hin. unfold muts_of. apply in_map_iff. exists (k, v). split; [reflexivity|exact Hin].
+  - eapply (proj1 (flush_triggered_pne _ _ _ _ _ _ _ H)).
+  - eapply (proj2 (flush_triggered_pne _ _ _ _ _ _ _ H)).
+  - apply H1; exact H.
+  - apply H2, H1; exact H.
+  - apply locked_sub_flushed.
+Qed.
 
 Lemma C16_resolve_covers_prefix_refuted_proof :
   exists P ops sp, forallb op_keys_ok ops = true /\ ssorted sp /\
